@@ -237,6 +237,34 @@ pub proof fn lemma_c19_products(a0: real, a1: real, a2: real, out: real)
 {}
 '''
 
+def norm_body(txt):
+    from rsx import split_fn
+    _, body = split_fn(strip_attrs_and_docs(txt))
+    body = re.sub(r'//[^\n]*', '', body)
+    return re.sub(r'\s+', '', body)
+
+# The rounding analysis below is a proof ABOUT A PARTICULAR EXPRESSION SHAPE (which operations round, in which order): it does not transfer
+# to an algebraically equal rewrite (e.g. fast_mul_add -> a*b+c), which would fail the proof script although no property is broken (measured:
+# benign edit B3). So each function is attached only if its body is still the shape analysed; otherwise the unit reports a lost anchor
+# (it is registered as an OPTIONAL unit: the budget is then "not re-established", the exact algebra stays decided by U-matrix).
+def skeleton(txt):
+    """Operation skeleton of a fn body: comments and whitespace dropped, every identifier that is not a method/function name replaced by `v`,
+    tuple-field and array indices by `i` - so renamed locals or fields keep the skeleton, while a changed operation (fused -> unfused, another order) does not."""
+    nb = norm_body(txt)
+    nb = re.sub(r'\b(?!fast_mul_add\b|new\b|Self\b|RowVector\b|ColVector\b|let\b|ref\b)[A-Za-z_][A-Za-z0-9_]*\b(?!\(|::)', 'v', nb)
+    nb = re.sub(r'\.\d+', '.i', nb)
+    return re.sub(r'\[\d+\]', '[i]', nb)
+SHAPES = {'component_mul': '{Self(v.i*v.i,v.i*v.i,v.i*v.i)}',
+ 'cross': '{letSelf(v,v,v)=*v;letSelf(v,v,v)=*v;Self::new(v.fast_mul_add(v,-(v*v)),v.fast_mul_add(v,-(v*v)),v.fast_mul_add(v,-(v*v)),)}',
+ 'dot': '{v.i.fast_mul_add(v.i,v.i.fast_mul_add(v.i,v.i*v.i))}',
+ 'mul_arr': '{letSelf(v,v,v)=*v;[v.i.fast_mul_add(v[i],v.i.fast_mul_add(v[i],v.i*v[i])),v.i.fast_mul_add(v[i],v.i.fast_mul_add(v[i],v.i*v[i])),v.i.fast_mul_add(v[i],v.i.fast_mul_add(v[i],v.i*v[i])),]}',
+ 'mul_mat': '{letSelf(v,v,v)=*v;letSelf(v,v,v)=v;Self::new(RowVector::new(v.i.fast_mul_add(v.i,v.i.fast_mul_add(v.i,v.i*v.i)),v.i.fast_mul_add(v.i,v.i.fast_mul_add(v.i,v.i*v.i)),v.i.fast_mul_add(v.i,v.i.fast_mul_add(v.i,v.i*v.i)),),RowVector::new(v.i.fast_mul_add(v.i,v.i.fast_mul_add(v.i,v.i*v.i)),v.i.fast_mul_add(v.i,v.i.fast_mul_add(v.i,v.i*v.i)),v.i.fast_mul_add(v.i,v.i.fast_mul_add(v.i,v.i*v.i)),),RowVector::new(v.i.fast_mul_add(v.i,v.i.fast_mul_add(v.i,v.i*v.i)),v.i.fast_mul_add(v.i,v.i.fast_mul_add(v.i,v.i*v.i)),v.i.fast_mul_add(v.i,v.i.fast_mul_add(v.i,v.i*v.i)),),)}',
+ 'mul_vec': '{letSelf(v,v,v)=*v;ColVector::new(v.i.fast_mul_add(v.i,v.i.fast_mul_add(v.i,v.i*v.i)),v.i.fast_mul_add(v.i,v.i.fast_mul_add(v.i,v.i*v.i)),v.i.fast_mul_add(v.i,v.i.fast_mul_add(v.i,v.i*v.i)),)}',
+ 'scalar_div': '{Self(v.i/v,v.i/v,v.i/v)}'}
+def guard(name, txt):
+    if skeleton(txt) != SHAPES[name]:
+        raise AnchorLost(f'{name}: operation skeleton differs from the one whose rounding was analysed')
+
 def build(repo):
     g = Gen('u_round')
     g.add(preamble.read('rounded.rs'))
@@ -258,6 +286,7 @@ def build(repo):
     hdr = hdr.replace('Neg<Output = T>,', 'Neg<Output = T> + Rounded,')
     hdr = hdr.replace('Div<T, Output = T>', 'std::ops::Div<T, Output = T>').replace('Neg<Output', 'std::ops::Neg<Output')
     sp = src.find('fn', 'mul_arr', within=(im[2], im[3]), keep_attrs=True)
+    guard('mul_arr', src.get(sp))
     c = C(requires=[],
           ensures=['row_err(self.0, rhs, r[0])', 'row_err(self.1, rhs, r[1])', 'row_err(self.2, rhs, r[2])'],
           head='''        proof {
@@ -282,11 +311,13 @@ def build(repo):
         return (f'absr({out}.val() - ({ro}.0.val() * {a}.val() + {ro}.1.val() * {b}.val() + {ro}.2.val() * {c}.val())) '
                 f'<= row_bound({ro}.0.val() * {a}.val(), {ro}.1.val() * {b}.val(), {ro}.2.val() * {c}.val())')
     sp = src.find('fn', 'mul_vec', within=(im[2], im[3]), keep_attrs=True)
+    guard('mul_vec', src.get(sp))
     cv = C(ensures=[rerr(f'self.{i}', 'rhs.0', 'rhs.1', 'rhs.2', f'r.{i}') for i in range(3)],
            head='        proof { T::ax(); ' + ' '.join(row_proof(f'self.{i}', 'rhs.0', 'rhs.1', 'rhs.2') for i in range(3)) + ' }')
     g.under_contract.append({'fn': 'Matrix::mul_vec (T: Rounded)', 'src': f'{REL}:{src.line_of(sp[0])}', 'requires': [], 'ensures': cv.ensures})
     mv = apply_contract(src.get(sp), cv, g.dropped)
     sp = src.find('fn', 'mul_mat', within=(im[2], im[3]), keep_attrs=True)
+    guard('mul_mat', src.get(sp))
     cm = C(ensures=[rerr(f'self.{i}', f'rhs.0.{j}', f'rhs.1.{j}', f'rhs.2.{j}', f'r.{i}.{j}') for i in range(3) for j in range(3)],
            head='        proof { T::ax(); ' + ' '.join(row_proof(f'self.{i}', f'rhs.0.{j}', f'rhs.1.{j}', f'rhs.2.{j}') for i in range(3) for j in range(3)) + ' }')
     g.under_contract.append({'fn': 'Matrix::mul_mat (T: Rounded)', 'src': f'{REL}:{src.line_of(sp[0])}', 'requires': [], 'ensures': ['9 entries: row_bound of the three exact products']})
@@ -295,6 +326,7 @@ def build(repo):
     imr = src.find_impl(r'impl<T> RowVector<T> where')
     hdr_r = ' '.join(src.text[imr[0]:imr[2] - 1].split()).replace('Neg<Output = T>,', 'Neg<Output = T> + Rounded,').replace('Div<T, Output = T>', 'std::ops::Div<T, Output = T>').replace('Neg<Output', 'std::ops::Neg<Output')
     sp = src.find('fn', 'dot', within=(imr[2], imr[3]), keep_attrs=True)
+    guard('dot', src.get(sp))
     cd = C(ensures=[rerr('self', 'other.0', 'other.1', 'other.2', 'r')],
            head='        proof { T::ax(); ' + row_proof('self', 'other.0', 'other.1', 'other.2') + ' }')
     g.under_contract.append({'fn': 'RowVector::dot (T: Rounded)', 'src': f'{REL}:{src.line_of(sp[0])}', 'requires': [], 'ensures': cd.ensures})
@@ -305,15 +337,18 @@ def build(repo):
         return (f'let p = {b1}.mul_spec({b2}); let q = p.neg_spec(); let o = {a1}.fma_spec({a2}, q); '
                 f'lemma_cross_error({a1}.val() * {a2}.val(), {b1}.val() * {b2}.val(), p.val(), o.val());')
     sp = src.find('fn', 'cross', within=(imr[2], imr[3]), keep_attrs=True)
+    guard('cross', src.get(sp))
     cc = C(ensures=[cr('r.0', 'self.1', 'other.2', 'self.2', 'other.1'), cr('r.1', 'self.2', 'other.0', 'self.0', 'other.2'), cr('r.2', 'self.0', 'other.1', 'self.1', 'other.0')],
            head='        proof { T::ax(); ' + cr_proof('self.1', 'other.2', 'self.2', 'other.1') + ' ' + cr_proof('self.2', 'other.0', 'self.0', 'other.2') + ' ' + cr_proof('self.0', 'other.1', 'self.1', 'other.0') + ' }')
     g.under_contract.append({'fn': 'RowVector::cross (T: Rounded)', 'src': f'{REL}:{src.line_of(sp[0])}', 'requires': [], 'ensures': cc.ensures})
     parts = [apply_contract(src.get(sp), cd, g.dropped) for sp, cd in ((src.find('fn', 'dot', within=(imr[2], imr[3]), keep_attrs=True), cd), (sp, cc))]
     sp = src.find('fn', 'component_mul', within=(imr[2], imr[3]), keep_attrs=True)
+    guard('component_mul', src.get(sp))
     ccm = C(ensures=[f'rnd(self.{i}.val() * other.{i}.val(), r.{i}.val())' for i in range(3)], head='        proof { T::ax(); }')
     g.under_contract.append({'fn': 'RowVector::component_mul (T: Rounded)', 'src': f'{REL}:{src.line_of(sp[0])}', 'requires': [], 'ensures': ccm.ensures})
     parts.append(apply_contract(src.get(sp), ccm, g.dropped))
     sp = src.find('fn', 'scalar_div', within=(imr[2], imr[3]), keep_attrs=True)
+    guard('scalar_div', src.get(sp))
     csd = C(ensures=[f'x.val() != 0real ==> rnd(self.{i}.val() / x.val(), r.{i}.val())' for i in range(3)], head='        proof { T::ax(); }')
     g.under_contract.append({'fn': 'RowVector::scalar_div (T: Rounded)', 'src': f'{REL}:{src.line_of(sp[0])}', 'requires': [], 'ensures': csd.ensures})
     parts.append(apply_contract(src.get(sp), csd, g.dropped))
